@@ -372,6 +372,7 @@ def apply_contract(eng, con, fn, args, kwargs, node, fr, caller_label=None, extr
                 assume_class_invariants(eng, env["self"])
             for nm, text in con.ensures_exc:
                 eng.assume(eng.truth(eng.eval_spec(text, dict(env, raised=VBool(True)), con.qual.split(".")[0], old=old)))
+            eng.emit("contract_raise", exc=exc, qual=con.qual, node=node)
             raise RaiseSig(VExc(exc, [eng.fresh_int("errno") if exc == "OSError" else eng.fresh_str("excmsg", False)]))
     declared_conditional = {e for e, _ in con.raises_when}
     for exc in con.raises:
@@ -382,7 +383,8 @@ def apply_contract(eng, con, fn, args, kwargs, node, fr, caller_label=None, extr
                 assume_class_invariants(eng, env["self"])
             for nm, text in con.ensures_exc:
                 eng.assume(eng.truth(eng.eval_spec(text, dict(env, raised=VBool(True)), con.qual.split(".")[0], old=old)))
-            raise RaiseSig(VExc(exc, [eng.fresh_str("excmsg", False)]))
+            eng.emit("contract_raise", exc=exc, qual=con.qual, node=node)
+            raise RaiseSig(VExc(exc, [eng.fresh_int("errno") if exc == "OSError" else eng.fresh_str("excmsg", False)]))
     if con.result_is is not None:
         result = eng.eval_spec(con.result_is, env, con.qual.split(".")[0], old=old)
     else:
